@@ -431,6 +431,13 @@ _SINK = _FormatAndDrop()
 def apply_env(env):
     """the environment a case ran under. debug_logging: the application has switched the library's loggers to DEBUG
     (as the --debug options and any logging.basicConfig(level=DEBUG) do); otherwise logging is off entirely."""
+    # no_dateutil: the optional python-dateutil package is not installed (it is only in the "test" extra; the documented
+    # fallback is datetime.fromisoformat) - simulated by blocking the import, which the library performs at call time
+    for name in ('dateutil', 'dateutil.parser'):
+        if env and env.get('no_dateutil'):
+            sys.modules[name] = None
+        elif name in sys.modules and sys.modules[name] is None:
+            del sys.modules[name]
     lg = logging.getLogger('cardutil')
     if env and env.get('debug_logging'):
         logging.disable(logging.NOTSET)
@@ -449,7 +456,10 @@ def apply_env(env):
 def task_env(idx):
     mode = os.environ.get('VERIF_DEBUG_LOGGING', 'default')
     on = mode == 'all' or (mode == 'default' and idx % 4 == 3)
-    return {'debug_logging': True} if on else {}
+    env = {'debug_logging': True} if on else {}
+    if os.environ.get('VERIF_NO_DATEUTIL', 'default') == 'all' or (os.environ.get('VERIF_NO_DATEUTIL', 'default') == 'default' and idx % 4 == 1):
+        env['no_dateutil'] = True
+    return env
 
 
 def _run_task(args):
@@ -460,7 +470,8 @@ def _run_task(args):
         ctx = Ctx(prop, tier, seed, task=f'{fname}#{idx}')
         ctx.env = task_env(idx)
         apply_env(ctx.env)
-        ctx.labels['tasks-with-debug-logging' if ctx.env else 'tasks-with-logging-off'] += 1
+        ctx.labels['tasks-with-debug-logging' if ctx.env.get('debug_logging') else 'tasks-with-logging-off'] += 1
+        ctx.labels['tasks-without-dateutil' if ctx.env.get('no_dateutil') else 'tasks-with-dateutil'] += 1
         try:
             getattr(mod, fname)(ctx, **kwargs)
         finally:
